@@ -18,8 +18,8 @@ VERBS = ["stop", "start", "pause", "resume", "restart", "disable", "enable"]
 
 
 def ip_of(i: int, topo: str = "switch") -> str:
-    """switch: all hosts in one subnet; routed: host i alone in subnet 10.0.<i+1>.0/24 behind port i+1 of one router"""
-    return f"10.0.{i + 1}.10" if topo == "routed" else f"192.168.0.{10 + i}"
+    """switch: all hosts in one subnet; routed / routed2: host i alone in subnet 10.0.<i+1>.0/24 behind its own router port"""
+    return f"10.0.{i + 1}.10" if topo in ("routed", "routed2") else f"192.168.0.{10 + i}"
 
 
 def _ip_index(ip) -> int:
@@ -65,6 +65,8 @@ def cmd_tokens(c: dict) -> List[str]:
 
 
 REMOTE = ("rlogin", "rcmd", "rlogoff")
+MEDIUM_OPS = ("block", "rpower", "arpblock", "arpclear")
+NONREQ = ("tick", "llogin", "llogout", "enable", "cfguser") + MEDIUM_OPS   # operations that are not a request to a host
 
 
 def exec_node(op: dict) -> int:
@@ -72,8 +74,55 @@ def exec_node(op: dict) -> int:
     return op["x"] if op["op"] in REMOTE else op["y"]
 
 
-def op_line(op: dict) -> str:
+def router_of(cfg: dict, i: int) -> int:
+    """routed: one router (0); routed2: hosts with an even index behind router 0, odd ones behind router 1 (routers in a chain)"""
+    return i % 2 if cfg.get("topo") == "routed2" else 0
+
+
+def path_routers(cfg: dict, x: int, y: int) -> List[int]:
+    rx, ry = router_of(cfg, x), router_of(cfg, y)
+    return [rx] if rx == ry else [rx, ry]
+
+
+class Medium:
+    """What lies between the hosts, as far as the model's `blocked` input is concerned (the rig's abstraction of the routers):
+    DENY rules per router and router power.  A direction x -> y (x = y: the gateway hairpin) is closed iff some router on its path
+    denies the pair or is off.  A DENY rule for ARP closes nothing, even with every ARP cache emptied: `Router.subject_to_acl`
+    exempts ARP frames from the ACL (operation `arpblock` is therefore a decoy, like a rule for another port); an ACL request sent to
+    a router that is off is refused and edits nothing."""
+
+    def __init__(self, cfg: dict):
+        self.cfg = cfg
+        self.nr = 2 if cfg.get("topo") == "routed2" else 1
+        self.acl = [set() for _ in range(self.nr)]
+        self.on = [True] * self.nr
+
+    def apply(self, op: dict):
+        k = op["op"]
+        if k == "block" and op.get("how") != "decoy":
+            r = op.get("at", router_of(self.cfg, op["x"]))
+            if self.on[r]:
+                (self.acl[r].add if op["on"] else self.acl[r].discard)((op["x"], op["y"]))
+        elif k == "rpower":
+            self.on[op["r"]] = op["on"]
+
+    def closed(self, x: int, y: int) -> bool:
+        return any((x, y) in self.acl[r] or not self.on[r] for r in path_routers(self.cfg, x, y))
+
+    def matrix(self) -> str:
+        n = self.cfg["n"]
+        return "/".join("".join("1" if self.closed(x, y) else "0" for y in range(n)) for x in range(n))
+
+
+
+
+def op_line(op: dict, medium: Optional[Medium] = None) -> str:
     k = op["op"]
+    if k in MEDIUM_OPS and medium is not None:
+        # the model is told the set of closed directions after the edit (`blockset` = a run of `setBlock` operations);
+        # an edit that closes / opens nothing (decoy rule, ARP cache cleared, rule on a router off the path) is `blockset` of the same set
+        medium.apply(op)
+        return "blockset " + medium.matrix()
     if k == "enable":
         return f"enable {op['y']} {op['u']}"
     if k == "cfguser":
@@ -87,18 +136,23 @@ def op_line(op: dict) -> str:
     if k == "block":
         # a DENY rule for another port (decoy) blocks nothing the terminal sends
         return "noop" if op.get("how") == "decoy" else f"block {op['x']} {op['y']} {int(op['on'])}"
+    if k in ("rpower", "arpblock"):
+        return f"{k} {op['r']} {int(op['on'])}"
+    if k == "arpclear":
+        return f"arpclear {op['j']}"
     return " ".join(["req", str(exec_node(op))] + cmd_tokens(op))
 
 
 def new_line(cfg: dict) -> str:
     # last token: routed topology = a frame a host addresses to itself comes back through its gateway
     return (f"new {cfg['n']} {cfg['su']} {cfg['sd']} {cfg['rd']} {cfg['max']} {cfg['lto']} {cfg['rto']} "
-            f"{1 if cfg.get('topo') == 'routed' else 0}")
+            f"{1 if cfg.get('topo') in ('routed', 'routed2') else 0}")
 
 
 def model_lines(case: dict) -> List[str]:
     ops = number_commands(case["ops"])
-    return ["reset", new_line(case["cfg"])] + [op_line(o) for o in ops]
+    medium = Medium(case["cfg"])
+    return ["reset", new_line(case["cfg"])] + [op_line(o, medium) for o in ops]
 
 
 def _number(c: dict, i: int) -> dict:
@@ -143,14 +197,21 @@ class Impl:
         n = cfg["n"]
         self.nodes = []
         self.router = None
-        if self.topo == "routed":
-            # every host alone in its own subnet behind one router: all terminal traffic crosses the router's ACL
+        self.routers = []
+        if self.topo in ("routed", "routed2"):
+            # every host alone in its own subnet behind a router port: all terminal traffic crosses the ACL of one router
+            # (routed) or of one or two routers in a chain (routed2: even hosts behind router 0, odd hosts behind router 1)
             from primaite.simulator.network.hardware.nodes.network.router import ACLAction, Router
             from primaite.utils.validation.ip_protocol import PROTOCOL_LOOKUP
             from primaite.utils.validation.port import PORT_LOOKUP
-            r = Router.from_config({"type": "router", "hostname": "router", "num_ports": max(n, 2), "start_up_duration": 0})
-            r.power_on()
+            nr = 2 if self.topo == "routed2" else 1
+            for k in range(nr):
+                r = Router.from_config({"type": "router", "hostname": "router" if k == 0 else f"router{k}", "num_ports": max(n, 2) + 1,
+                                        "start_up_duration": 0, "shut_down_duration": 0})
+                r.power_on()
+                self.routers.append(r)
             for i in range(n):
+                r = self.routers[router_of(cfg, i)]
                 r.configure_port(i + 1, f"10.0.{i + 1}.1", "255.255.255.0")
                 c = Computer.from_config({"type": "computer", "hostname": f"n{i}", "ip_address": ip_of(i, "routed"),
                                           "subnet_mask": "255.255.255.0", "default_gateway": f"10.0.{i + 1}.1",
@@ -158,14 +219,28 @@ class Impl:
                 c.power_on()
                 net.add_node(c)
                 self.nodes.append(c)
-            net.add_node(r)
+            for r in self.routers:
+                net.add_node(r)
             for i, c in enumerate(self.nodes):
+                r = self.routers[router_of(cfg, i)]
                 net.connect(c.network_interface[1], r.network_interface[i + 1])
                 r.enable_port(i + 1)
-            r.acl.add_rule(action=ACLAction.PERMIT, src_port=PORT_LOOKUP["ARP"], dst_port=PORT_LOOKUP["ARP"], position=22)
-            r.acl.add_rule(action=ACLAction.PERMIT, protocol=PROTOCOL_LOOKUP["ICMP"], position=23)
-            r.acl.add_rule(action=ACLAction.PERMIT, position=21)
-            self.router = r
+            if nr == 2:
+                r0, r1 = self.routers
+                last = max(n, 2) + 1
+                r0.configure_port(last, "10.0.100.1", "255.255.255.252")
+                r1.configure_port(last, "10.0.100.2", "255.255.255.252")
+                net.connect(r0.network_interface[last], r1.network_interface[last])
+                r0.enable_port(last)
+                r1.enable_port(last)
+                for i in range(n):
+                    other = self.routers[1 - router_of(cfg, i)]
+                    other.route_table.add_route(f"10.0.{i + 1}.0", "255.255.255.0", "10.0.100.1" if router_of(cfg, i) == 0 else "10.0.100.2")
+            for r in self.routers:
+                r.acl.add_rule(action=ACLAction.PERMIT, src_port=PORT_LOOKUP["ARP"], dst_port=PORT_LOOKUP["ARP"], position=22)
+                r.acl.add_rule(action=ACLAction.PERMIT, protocol=PROTOCOL_LOOKUP["ICMP"], position=23)
+                r.acl.add_rule(action=ACLAction.PERMIT, position=21)
+            self.router = self.routers[0]
         else:
             sw = Switch.from_config({"type": "switch", "hostname": "sw", "num_ports": max(n, 2) + 1, "start_up_duration": 0})
             sw.power_on()
@@ -192,13 +267,11 @@ class Impl:
     def ip(self, i: int) -> str:
         return ip_of(i, self.topo)
 
-    def blocked(self) -> List[Tuple[int, int]]:
-        """Directed pairs the router's ACL denies for the terminal's frames (TCP, port 22 both ways), read back from the ACL
-        itself: a DENY rule above the catch-all PERMIT whose address pair is two hosts and whose protocol / ports admit SSH."""
-        if self.router is None:
-            return []
+    def _denied(self, r) -> List[Tuple[int, int]]:
+        """Directed pairs router `r`'s ACL denies for the terminal's frames (TCP, port 22 both ways), read back from the ACL itself:
+        a DENY rule above the catch-all PERMIT whose address pair is two hosts and whose protocol / ports admit SSH."""
         out = []
-        for rule in self.router.acl.acl[:21]:
+        for rule in r.acl.acl[:20]:
             if rule is None or rule.action.name != "DENY" or rule.src_ip_address is None or rule.dst_ip_address is None:
                 continue
             if rule.protocol not in (None, "tcp") or rule.src_port not in (None, 22) or rule.dst_port not in (None, 22):
@@ -207,6 +280,17 @@ class Impl:
             if x is not None and y is not None:
                 out.append((x, y))
         return out
+
+    def blocked(self) -> List[Tuple[int, int]]:
+        """The closed directions, read back from the routers themselves (ACL rules, power state): x -> y is closed iff a router on
+        its path denies the pair or is not ON (x = y: the gateway hairpin)."""
+        if not self.routers:
+            return []
+        n = len(self.nodes)
+        bad = [set(self._denied(r)) for r in self.routers]
+        down = [r.operating_state.name != "ON" for r in self.routers]
+        return [(x, y) for x in range(n) for y in range(n)
+                if any((x, y) in bad[k] or down[k] for k in path_routers(self.cfg, x, y))]
 
     # -- observation
     def snap(self) -> dict:
@@ -287,9 +371,36 @@ class Impl:
             return "success"
         if k == "block":
             return self.block(op)
+        if k == "rpower":     # Python API: Router.power_off / power_on (durations 0: immediate)
+            r = self.routers[op["r"]]
+            ok = r.power_on() if op["on"] else r.power_off()
+            return "success"
+        if k == "arpclear":   # ARP caches emptied: of one host (j < n), of router j - n, or of everything ("all")
+            for nd in self._arp_targets(op["j"]):
+                nd.software_manager.arp.clear()
+            return "success"
+        if k == "arpblock":   # ARP "denied" at router r (a rule above the ARP permit) and every cache emptied; off: rule removed
+            r = self.routers[op["r"]]
+            if r.operating_state.name != "ON":
+                return "success"        # ACL requests to a router that is off are refused
+            if r.acl.acl[20] is not None:
+                if self.sim.apply_request(["network", "node", r.config.hostname, "acl", "remove_rule", 20]).status != "success":
+                    return "rig-error"
+            if op["on"]:
+                if self.sim.apply_request(["network", "node", r.config.hostname, "acl", "add_rule", "DENY", "UDP", "ALL", "NONE", "ARP",
+                                           "ALL", "NONE", "ARP", 20]).status != "success":
+                    return "rig-error"
+                for nd in self._arp_targets("all"):
+                    nd.software_manager.arp.clear()
+            return "success"
         node = exec_node(op)
         return self._req(node, _resolve(self.cmd_request(node, op)))
 
+
+    def _arp_targets(self, j):
+        if j == "all":
+            return self.nodes + self.routers
+        return [self.nodes[j]] if j < len(self.nodes) else [self.routers[(j - len(self.nodes)) % len(self.routers)]]
 
     def block(self, op: dict) -> str:
         """One ACL position per directed pair (decoys use their own); through the router's own `acl` requests.
@@ -298,14 +409,18 @@ class Impl:
         x, y, n = op["x"], op["y"], len(self.nodes)
         how = op.get("how", "pair")
         pos = 1 + x * n + y + (9 if how == "decoy" else 0)
-        acl = self.router.acl
+        router = self.routers[op.get("at", router_of(self.cfg, x))]
+        if router.operating_state.name != "ON":
+            return "success"            # ACL requests to a router that is off are refused: nothing is edited
+        rname = router.config.hostname
+        acl = router.acl
         if acl.acl[pos] is not None:
-            r = self.sim.apply_request(["network", "node", "router", "acl", "remove_rule", pos])
+            r = self.sim.apply_request(["network", "node", rname, "acl", "remove_rule", pos])
             if r.status != "success":
                 return "rig-error"
         if op["on"]:
             proto, port = ("ALL", "ALL") if how == "pair" else ("TCP", "HTTP" if how == "decoy" else "SSH")
-            r = self.sim.apply_request(["network", "node", "router", "acl", "add_rule", "DENY", proto, self.ip(x), "NONE", port,
+            r = self.sim.apply_request(["network", "node", rname, "acl", "add_rule", "DENY", proto, self.ip(x), "NONE", port,
                                         self.ip(y), "NONE", port, pos])
             if r.status != "success":
                 return "rig-error"
@@ -396,6 +511,9 @@ def _cred_ok(b: dict, u: str, p: str) -> bool:
     return any(n == u and pw == p and not d for n, pw, d, _ in b["users"]) and b["power"] == "ON"
 
 
+TOUCHED: List[Tuple[int, str]] = []   # filled by walk(): (node, session id) of every accepted remote hop of the operation
+
+
 def walk(op: dict, before: dict):
     """Follow a (nested) request through the terminals on the state BEFORE the operation.
     Returns (hops_ok, node the innermost command is executed on, innermost command, nodes where an `lcmd` hop logs in)."""
@@ -404,11 +522,14 @@ def walk(op: dict, before: dict):
     c = op
     ok = cur < len(nodes)
     local_logins = []
+    TOUCHED.clear()
     while ok and c["op"] in ("rcmd", "lcmd"):
         if c["op"] == "rcmd":
             y = c["y"]
             first = next((cid for cid, peer in nodes[cur]["conns"] if peer == y), None)
             ok = y < len(nodes) and first is not None and first in [r[0] for r in nodes[y]["rem"]]
+            if ok:
+                TOUCHED.append((y, first))     # this hop is activity of session `first` of node y — and of no other session
             cur = y
         else:
             ok = _cred_ok(nodes[cur], c["u"], c["p"])
@@ -438,7 +559,8 @@ def oracle(case: dict, snaps: List[dict], stats: List[str]) -> Optional[Tuple[di
             return ({"kind": "raised", "op": op["op"], "exc": st.split(":")[1]}, f"{op_line(op)} raised {st}", i)
         before, after = snaps[i], snaps[i + 1]
         k = op["op"]
-        if k in ("tick", "llogin", "llogout", "enable", "block", "cfguser"):
+        if k in NONREQ:
+            TOUCHED.clear()
             ok_chain, final, inner, llogins = False, None, {"op": k}, []
         else:
             ok_chain, final, inner, llogins = walk(op, before)
@@ -500,6 +622,13 @@ def oracle(case: dict, snaps: List[dict], stats: List[str]) -> Optional[Tuple[di
             b = before["nodes"][y] if y < len(before["nodes"]) else None
             if b is None or not _cred_ok(b, op["u"], op["p"]):
                 return ({"kind": "login-without-valid-credentials", "op": k}, f"op {i} {op_line(op)} answered success", i)
+        # the credentials supplied WITH a local command / local login are checked every time (also while that user is logged in, after
+        # the account was disabled, after its password changed): without them nothing at all changes on any node
+        if k in ("lcmd", "llogin") and op["y"] < len(before["nodes"]) and not _cred_ok(before["nodes"][op["y"]], op["u"], op["p"]):
+            if after["nodes"] != before["nodes"] or (k == "llogin" and st == "success"):
+                why = "logged in locally" if (before["nodes"][op["y"]]["loc"] or (None, None))[1] == op["u"] else "not logged in"
+                return ({"kind": "local-credentials-not-checked", "op": k, "user-was": why},
+                        f"op {i} {op_line(op)}: accepted without the current password of an enabled account (user {why})", i)
         if k in ("llogin", "usmlogin") and st == "success":
             b = before["nodes"][op["y"]]
             if not _cred_ok(b, op["u"], op["p"]):
@@ -573,9 +702,9 @@ def oracle(case: dict, snaps: List[dict], stats: List[str]) -> Optional[Tuple[di
         for j, (b, a) in enumerate(zip(before["nodes"], after["nodes"])):
             was = {r[0]: r[2] for r in b["rem"]}
             for r in a["rem"]:
-                if r[0] in was and was[r[0]] != r[2] and (k != "rcmd" and k != "lcmd" or r[2] != before["t"]):
+                if r[0] in was and was[r[0]] != r[2] and (k in NONREQ or (j, r[0]) not in TOUCHED or r[2] != before["t"]):
                     return ({"kind": "clock-moved", "op": k}, f"op {i} {op_line(op)} moved the inactivity clock of a remote session "
-                            f"of node {j}", i)
+                            f"of node {j} that no accepted hop of the command travelled on", i)
             if b["loc"] is not None and a["loc"] is not None and b["loc"][0] == a["loc"][0] and b["loc"][2] != a["loc"][2]:
                 return ({"kind": "clock-moved", "op": k}, f"op {i} {op_line(op)} moved the clock of the local session of node {j}", i)
     return None
@@ -586,7 +715,7 @@ def gen_cfg(rng: Rng) -> dict:
     # start-up / shut-down duration 0 = the node changes state inside the request (DESIGN F-14 and its reset twin are repaired)
     return {"n": rng.choice([2, 3, 3]), "su": rng.choice([0, 1, 1, 2]), "sd": rng.choice([0, 1, 1, 2]), "rd": rng.choice([1, 2]),
             "max": rng.choice([1, 2, 3]), "lto": rng.choice([2, 3, 5]), "rto": rng.choice([2, 3, 4, 6]),
-            "topo": rng.choice(["switch", "routed"])}
+            "topo": rng.choice(["switch", "switch", "routed", "routed", "routed2"])}
 
 
 def _creds(rng: Rng, known: Dict[int, Dict[str, str]], y: int):
@@ -647,8 +776,8 @@ def gen_op(rng: Rng, cfg: dict, known: Dict[int, Dict[str, str]], malformed: boo
     if malformed and rng.chance(1, 3):
         y = rng.choice([n, n + 1])          # an address nobody owns
     u, p = _creds(rng, known, y)
-    if cfg.get("topo") == "routed" and rng.chance(1, 10):
-        return gen_block(rng, cfg)
+    if cfg.get("topo") in ("routed", "routed2") and rng.chance(1, 10):
+        return gen_medium(rng, cfg)
     r = rng.below(100)
     if r < 14:
         return {"op": "rlogin", "x": x, "y": y, "u": u, "p": p}
@@ -689,11 +818,111 @@ def gen_op(rng: Rng, cfg: dict, known: Dict[int, Dict[str, str]], malformed: boo
     return {"op": "reset", "y": y}
 
 
+def local_story(rng: Rng, cfg: dict, known: Dict[int, Dict[str, str]]) -> List[dict]:
+    """A user logged in locally, then local logins / commands for that account with wrong credentials, after the account was
+    disabled, after its password changed, after the session timed out or was logged out — and with the right ones again."""
+    n = cfg["n"]
+    y = rng.below(n)
+    u, pw = rng.choice([("admin", "admin"), ("u1", "pw1"), ("adm2", "pw2")])
+    ops: List[dict] = []
+    if u != "admin":
+        ops.append({"op": rng.choice(["adduser", "cfguser"]), "y": y, "u": u, "p": pw, "admin": u == "adm2"})
+        known[y][u] = pw
+    ops.append(rng.choice([{"op": "llogin", "y": y, "u": u, "p": pw}, {"op": "lcmd", "y": y, "u": u, "p": pw, "cmd": dict(FILE)}]))
+    wrong = rng.choice([q for q in PASSWORDS if q != pw])
+
+    def attempt(p):
+        r = rng.below(4)
+        if r == 0:
+            return {"op": "llogin", "y": y, "u": u, "p": p}
+        inner = dict(FILE) if r < 3 else rng.choice([{"op": "adduser", "u": "u2", "p": "pw2", "admin": True}, {"op": "disable", "u": "admin"},
+                                                     {"op": "chpw", "u": u, "old": p, "new": "admin"}])
+        return {"op": "lcmd", "y": y, "u": u, "p": p, "cmd": inner}
+    ops += [attempt(wrong), attempt(pw)]
+    for _ in range(rng.range(1, 3)):
+        ev = rng.below(6)
+        if ev == 0 and u != "admin":
+            ops += [{"op": "disable", "y": y, "u": u}, attempt(pw), attempt(wrong)]
+            if rng.chance(1, 2):
+                ops += [{"op": "enable", "y": y, "u": u}, attempt(pw)]
+        elif ev == 1:
+            new = rng.choice([q for q in PASSWORDS if q != pw])
+            ops += [{"op": "chpw", "y": y, "u": u, "old": pw, "new": new}, attempt(pw), attempt(new)]
+            known[y][u] = pw = new
+        elif ev == 2:
+            ops += [{"op": "tick"}] * cfg["lto"] + [attempt(wrong), attempt(pw)]
+        elif ev == 3:
+            ops += [{"op": "llogout", "y": y}, attempt(wrong), attempt(pw)]
+        elif ev == 4:
+            ops += [{"op": "svc", "y": y, "s": rng.choice(["user-manager", "user-session-manager"]), "v": "stop"}, attempt(pw), attempt(wrong)]
+        else:
+            ops += [{"op": "lcmd", "y": y, "u": "admin", "p": "admin", "cmd": dict(FILE)}, attempt(wrong), attempt(pw)]
+    return ops
+
+
+def local_alphabet() -> List[dict]:
+    """Bounded-exhaustive family for the local command path on node 1 (accounts admin and the second administrator u1/pw1): right and
+    wrong credentials for a local login and a local command, the other account, disable / enable, password change, the new password,
+    logout, tick."""
+    return [
+        {"op": "llogin", "y": 1, "u": "admin", "p": "admin"},
+        {"op": "llogin", "y": 1, "u": "admin", "p": "pw2"},
+        {"op": "lcmd", "y": 1, "u": "admin", "p": "admin"},
+        {"op": "lcmd", "y": 1, "u": "admin", "p": "pw2"},
+        {"op": "lcmd", "y": 1, "u": "admin", "p": "pw1"},
+        {"op": "lcmd", "y": 1, "u": "u1", "p": "pw1"},
+        {"op": "disable", "y": 1, "u": "admin"},
+        {"op": "enable", "y": 1, "u": "admin"},
+        {"op": "chpw", "y": 1, "u": "admin", "old": "admin", "new": "pw1"},
+        {"op": "llogout", "y": 1},
+        {"op": "tick"},
+    ]
+
+
+LOCAL_PREFIX = [{"op": "adduser", "y": 1, "u": "u1", "p": "pw1", "admin": True}]
+
+
 def gen_block(rng: Rng, cfg: dict, on: Optional[bool] = None) -> dict:
     n = cfg["n"]
     x = rng.below(n)
     y = (x + 1 + rng.below(n - 1)) % n
     return {"op": "block", "x": x, "y": y, "on": rng.chance(3, 5) if on is None else on, "how": rng.choice(["pair", "ssh", "ssh", "decoy"])}
+
+
+def gen_medium(rng: Rng, cfg: dict) -> dict:
+    """an edit of what lies between the hosts: an ACL rule (on a router of the path, sometimes on one off the path), router power,
+    ARP caches cleared, ARP denied"""
+    nr = 2 if cfg["topo"] == "routed2" else 1
+    r = rng.below(100)
+    if r < 55:
+        op = gen_block(rng, cfg)
+        if nr == 2:
+            op["at"] = rng.choice(path_routers(cfg, op["x"], op["y"])) if rng.chance(5, 6) else rng.below(2)
+        return op
+    if r < 75:
+        return {"op": "rpower", "r": rng.below(nr), "on": rng.chance(1, 2)}
+    if r < 88:
+        return {"op": "arpclear", "j": rng.choice(["all"] + list(range(cfg["n"] + nr)))}
+    return {"op": "arpblock", "r": rng.below(nr), "on": rng.chance(1, 2)}
+
+
+def lower_layer_story(rng: Rng, cfg: dict) -> List[dict]:
+    """A session across the router(s); then a router is powered off, or ARP is denied and every cache emptied, or all caches are
+    cleared, in the middle of the session; a command / logoff / time-out happens meanwhile; the medium comes back and both ends are
+    used again."""
+    n = cfg["n"]
+    nr = 2 if cfg["topo"] == "routed2" else 1
+    y = rng.below(n)
+    x = (y + 1 + rng.below(n - 1)) % n
+    login = {"op": "rlogin", "x": x, "y": y, "u": "admin", "p": "admin"}
+    cmd = {"op": "rcmd", "x": x, "y": y, "cmd": dict(FILE)}
+    r = rng.choice(path_routers(cfg, x, y))
+    down, up = rng.choice([({"op": "rpower", "r": r, "on": False}, {"op": "rpower", "r": r, "on": True}),
+                           ({"op": "arpblock", "r": r, "on": True}, {"op": "arpblock", "r": r, "on": False})])
+    meanwhile = rng.choice([[cmd], [{"op": "rlogoff", "x": x, "y": y}], [{"op": "tick"}] * cfg["rto"],
+                            [{"op": "chpw", "y": y, "u": "admin", "old": "admin", "new": "admin"}], [login]])
+    ops = [login] + [{"op": "tick"}] * rng.below(2) + [cmd, {"op": "arpclear", "j": "all"}, cmd, down] + meanwhile + [cmd, up, cmd, login, cmd]
+    return ops
 
 
 def transport_story(rng: Rng, cfg: dict) -> List[dict]:
@@ -729,10 +958,10 @@ def transport_story(rng: Rng, cfg: dict) -> List[dict]:
 
 def track(known: Dict[int, Dict[str, str]], op: dict):
     """Optimistic bookkeeping of credentials so that later operations are mostly valid."""
-    if op["op"] in ("tick", "llogin", "llogout", "enable", "block"):
-        return
     if op["op"] == "cfguser":
         known.setdefault(op["y"], {"admin": "admin"}).setdefault(op["u"], op["p"])
+        return
+    if op["op"] in NONREQ:
         return
     _, node, c, _ = walk_static(op)
     if c["op"] == "adduser":
@@ -827,8 +1056,10 @@ def gen_case(rng: Rng, max_ops: int = 30) -> dict:
         ops.append({"op": "rlogin", "x": 0, "y": 1, "u": "admin", "p": "admin"})
         ops.append({"op": "rcmd", "x": 0, "y": 1, "cmd": {"op": "rlogin", "y": 2, "u": "admin", "p": "admin"}})
         ops.append({"op": "rcmd", "x": 0, "y": 1, "cmd": {"op": "rcmd", "y": 2, "cmd": dict(FILE)}})
-    if cfg["topo"] == "routed" and rng.chance(1, 2):
-        for o in transport_story(rng, cfg):
+    elif story == 7:               # the local command path: credentials are checked with every command
+        ops += local_story(rng, cfg, known)
+    if cfg["topo"] in ("routed", "routed2") and rng.chance(1, 2):
+        for o in (transport_story(rng, cfg) if rng.chance(1, 2) else lower_layer_story(rng, cfg)):
             track(known, o)
             ops.append(o)
     for _ in range(rng.range(3, max_ops)):
@@ -912,6 +1143,42 @@ def route_alphabet() -> List[dict]:
         {"op": "tick"},
         {"op": "chpw", "y": 1, "u": "admin", "old": "admin", "new": "pw1"},
         {"op": "rcmd", "x": 1, "y": 0},
+    ]
+
+
+def self_alphabet() -> List[dict]:
+    """Bounded-exhaustive family for a node that reaches ITSELF through its gateway (routed topology, power durations 0 so that the
+    node changes state inside the command): client and server side are the same Terminal object."""
+    me = {"x": 1, "y": 1}
+    return [
+        dict(me, op="rlogin", u="admin", p="admin"),
+        dict(me, op="rcmd"),
+        dict(me, op="rcmd", cmd={"op": "shutdown"}),
+        dict(me, op="rcmd", cmd={"op": "reset"}),
+        dict(me, op="rcmd", cmd={"op": "svc", "s": "terminal", "v": "stop"}),
+        dict(me, op="rcmd", cmd={"op": "chpw", "u": "admin", "old": "admin", "new": "admin"}),
+        dict(me, op="rlogoff"),
+        {"op": "startup", "y": 1},
+        {"op": "tick"},
+    ]
+
+
+def medium_alphabet() -> List[dict]:
+    """Bounded-exhaustive family on two routers in a chain (host 0 behind router 0, host 1 behind router 1): router power, ARP
+    denied with empty caches, caches cleared, the reply direction of the terminal's port blocked at the far router, login, command,
+    logoff, tick."""
+    return [
+        {"op": "rpower", "r": 0, "on": False},
+        {"op": "rpower", "r": 0, "on": True},
+        {"op": "arpblock", "r": 1, "on": True},
+        {"op": "arpblock", "r": 1, "on": False},
+        {"op": "arpclear", "j": "all"},
+        {"op": "block", "x": 1, "y": 0, "on": True, "how": "ssh", "at": 0},
+        {"op": "block", "x": 1, "y": 0, "on": False, "how": "ssh", "at": 0},
+        {"op": "rlogin", "x": 0, "y": 1, "u": "admin", "p": "admin"},
+        {"op": "rcmd", "x": 0, "y": 1},
+        {"op": "rlogoff", "x": 0, "y": 1},
+        {"op": "tick"},
     ]
 
 
